@@ -121,6 +121,34 @@ func (s c08svc) Big(str string, n int) string {
 	return strings.Repeat(str, n)
 }
 
+// Same hands its argument back: a nil interface{} result among others.
+func (s c08svc) Same(x interface{}) interface{} { s.log.add("same", x); return x }
+
+// Anys and Nils are about nil arguments: for every nilable parameter type, and in every variadic position.
+func (s c08svc) Anys(xs ...interface{}) string {
+	s.log.add("anys", xs)
+	var p []string
+	for _, x := range xs {
+		if x == nil {
+			p = append(p, "<nil>")
+		} else {
+			p = append(p, fmt.Sprintf("%v", x))
+		}
+	}
+	return strings.Join(p, ",")
+}
+func (s c08svc) Nils(p *int, l []int, m map[string]int, x interface{}, e *GInner, tail ...string) string {
+	s.log.add("nils", p, l, m, x, e, tail)
+	d := fmt.Sprintf("p=%v l=%d m=%d x=%v e=%v tail=%d", p == nil, len(l), len(m), x == nil, e == nil, len(tail))
+	if p != nil {
+		d += fmt.Sprintf(" *p=%d", *p)
+	}
+	if e != nil {
+		d += fmt.Sprintf(" e.B=%s", e.B)
+	}
+	return d
+}
+
 type c08proxy struct {
 	Nop    func() error
 	Inc    func(x int) (int, error)
@@ -140,6 +168,9 @@ type c08proxy struct {
 	Float  func(f float64) (float64, error)
 	Three  func(x int) (int, string, float64, error)
 	Big    func(str string, n int) (string, error)
+	Same   func(x interface{}) (interface{}, error)
+	Anys   func(xs ...interface{}) (string, error)
+	Nils   func(p *int, l []int, m map[string]int, x interface{}, e *GInner, tail ...string) (string, error)
 	Absent func(x int, y string) (string, error) `name:"noSuchMethod"`
 }
 
@@ -154,7 +185,7 @@ type c08nested struct {
 	}
 }
 
-var c08Names = []string{"Nop", "Inc", "Pair", "Sum", "Prefix", "Ctx", "Fail", "Boom", "Outer", "Tagged", "Map", "Strs", "Any", "Bytes", "Time", "Float", "Three", "Big"}
+var c08Names = []string{"Nop", "Inc", "Pair", "Sum", "Prefix", "Ctx", "Fail", "Boom", "Outer", "Tagged", "Map", "Strs", "Any", "Bytes", "Time", "Float", "Three", "Big", "Anys", "Nils", "Same"}
 
 func c08render(v interface{}) string {
 	return renderNorm(reflect.ValueOf(v))
@@ -371,6 +402,16 @@ func scenC08(r *Run) {
 				v = append(v, r.genString())
 			}
 			return []interface{}{v}
+		case "Same":
+			switch r.Plan(4) {
+			case 0:
+				return []interface{}{r.genString()}
+			case 1:
+				return []interface{}{r.Plan(100000)}
+			case 2:
+				return []interface{}{true}
+			}
+			return []interface{}{nil}
 		case "Any":
 			if typedLists {
 				// the option asks for homogeneous typed slices: a nil or mixed list is outside what it can represent
@@ -397,6 +438,43 @@ func scenC08(r *Run) {
 				n = 60000 / (len(str) + 1)
 			}
 			return []interface{}{str, n}
+		case "Anys":
+			a := make([]interface{}, r.Plan(5))
+			for i := range a {
+				switch r.Plan(4) {
+				case 0:
+					a[i] = nil
+				case 1:
+					a[i] = r.Plan(1000)
+				case 2:
+					a[i] = r.genString()
+				default:
+					a[i] = r.PlanBool(2)
+				}
+			}
+			return a
+		case "Nils":
+			a := []interface{}{nil, nil, nil, nil, nil}
+			if r.PlanBool(2) {
+				n := r.Plan(100)
+				a[0] = &n
+			}
+			if r.PlanBool(2) {
+				a[1] = []int{1, 2, 3}
+			}
+			if r.PlanBool(2) {
+				a[2] = map[string]int{"k": 1}
+			}
+			if r.PlanBool(2) {
+				a[3] = r.genString()
+			}
+			if r.PlanBool(2) {
+				a[4] = &GInner{A: 2, B: r.genString()}
+			}
+			for i, n := 0, r.Plan(3); i < n; i++ {
+				a = append(a, r.genString())
+			}
+			return a
 		case "Absent":
 			return []interface{}{r.Plan(10), "y"}
 		}
@@ -434,7 +512,11 @@ func scenC08(r *Run) {
 		}
 		for _, a := range c08copy(cl.args) {
 			if a == nil {
-				in = append(in, reflect.Zero(mt.In(len(in))))
+				if k := len(in); mt.IsVariadic() && k >= mt.NumIn()-1 {
+					in = append(in, reflect.Zero(mt.In(mt.NumIn()-1).Elem()))
+				} else {
+					in = append(in, reflect.Zero(mt.In(k)))
+				}
 			} else {
 				in = append(in, reflect.ValueOf(a))
 			}
